@@ -1,56 +1,152 @@
 /-
-  `FailoverGroup` under concurrency (failover.go): `current()` reads `active` under the read lock,
-  the member call happens outside any lock, `errorFrom(i)` advances `active` under the write lock
-  only if nobody else advanced it meanwhile.  Member outcomes are chosen by the environment except
-  for one member `h` that is permanently healthy (always answers, never errors).
+  `FailoverGroup` under concurrency (failover.go), at the granularity of its mutex operations.
+
+  One attempt of `GetChunk` / `HasChunk` (the loop body, `i` = attempts used up so far):
+
+      current():    [want.r]  RLock  [rlocked: reads `active`]  RUnlock  [runlocked]
+      member call:  [the member is entered]  …  [ret: what the member returned]
+      on an error:  errorFrom(a):  [want.w]  Lock  [locked]  `if a = active then active := (active+1) % n`
+                    [advanced | stale]  Unlock  [unlocked]      and the loop continues with `i + 1`
+
+  The bracketed points are the hook sites of the `verif` build (verif_chain.go) and the events of
+  this machine.  `sync.RWMutex` is modelled by its contract: a writer excludes everybody, readers
+  exclude writers; with `wp` (writer preference, what Go implements) a writer that has announced
+  itself (`want.w`) additionally keeps new readers out.  Who holds what is read off the callers'
+  program counters, there is no separate lock word that could disagree with them.
+
+  Member outcomes are chosen by the environment, except for the member `h` that is permanently
+  healthy: it never errors and answers truthfully.  `GetChunk` returns a chunk or `ChunkMissing`
+  as the member's answer; `HasChunk` has no `ChunkMissing` arm: every error fails over.
 -/
 namespace Desync.Failover
 
-inductive PC
-  | idle
-  | readCur (attempt : Nat)              -- about to call current()
-  | calling (attempt : Nat) (a : Nat)    -- member call on store a in flight
-  | erred (attempt : Nat) (a : Nat)      -- member a returned an error: about to errorFrom(a)
-  | ok                                   -- returned a member's answer (chunk or missing)
-  | failed                               -- all attempts used up: returned the last error
+/-- which method the caller runs -/
+inductive Op
+  | get | has
   deriving DecidableEq, Repr
 
+/-- what a member call produced: a chunk, `ChunkMissing`, `(b, nil)` from `HasChunk`, another error -/
+inductive Out
+  | chunk | missing | has (b : Bool) | error
+  deriving DecidableEq, Repr
+
+/-- how the loop body treats a member's outcome: `some true` = return it to the caller,
+    `some false` = record the error and fail over, `none` = the member cannot produce this for the method -/
+def classify : Op → Out → Option Bool
+  | .get, .chunk => some true
+  | .get, .missing => some true          -- `if _, ok := err.(ChunkMissing); ok { return b, err }`
+  | .get, .error => some false
+  | .get, .has _ => none
+  | .has, .has _ => some true
+  | .has, .missing => some false         -- no ChunkMissing arm in HasChunk: an error like any other
+  | .has, .error => some false
+  | .has, .chunk => none
+
+/-- the truthful answer of a member that holds (`p`) or lacks the chunk -/
+def truth : Op → Bool → Out
+  | .get, true => .chunk
+  | .get, false => .missing
+  | .has, p => .has p
+
+inductive PC
+  | next (i : Nat)                -- at the loop test `i < len(g.stores)` (a caller that has not started: `next 0`)
+  | wantR (i : Nat)               -- current(): announced RLock
+  | holdR (i : Nat) (a : Nat)     -- holds the read lock, has read `active = a`
+  | toCall (i : Nat) (a : Nat)    -- read lock released, about to call member `a`
+  | calling (i : Nat) (a : Nat)   -- member call on store `a` in flight
+  | erred (i : Nat) (a : Nat)     -- member `a` returned an error: about to errorFrom(a)
+  | wantW (i : Nat) (a : Nat)     -- errorFrom(a): announced Lock
+  | holdW (i : Nat) (a : Nat)     -- holds the write lock
+  | advd (i : Nat)                -- has compared (and possibly advanced), still holds the write lock
+  | ok (o : Out) (a : Nat)        -- returned member `a`'s answer `o`
+  | failed                        -- all attempts used up: returned the last error
+  deriving DecidableEq, Repr
+
+def PC.isReader : PC → Bool
+  | .holdR _ _ => true
+  | _ => false
+
+def PC.isWriter : PC → Bool
+  | .holdW _ _ => true
+  | .advd _ => true
+  | _ => false
+
+def PC.isPendingW : PC → Bool
+  | .wantW _ _ => true
+  | _ => false
+
 structure St where
-  n : Nat                 -- number of members (≥ 1)
-  h : Nat                 -- the healthy member
+  n : Nat                       -- number of members
+  h : Nat                       -- the healthy member
+  wp : Bool := true             -- writer preference: an announced writer keeps new readers out
+  truthful : Bool := false      -- every member that answers answers truthfully (replicas of one store)
+  reqs : List (Op × Bool)       -- per caller: the method, and whether the chunk asked for exists
   active : Nat := 0
   callers : List PC
   deriving Repr
 
-def St.init (n h k : Nat) : St := { n, h, callers := List.replicate k .idle }
+def St.init (n h : Nat) (wp truthful : Bool) (reqs : List (Op × Bool)) : St :=
+  { n, h, wp, truthful, reqs, callers := List.replicate reqs.length (.next 0) }
 
 inductive Ev
-  | start (t : Nat)
-  | current (t : Nat)
-  | answer (t : Nat)          -- the member answers (chunk or missing): the caller returns it
-  | error (t : Nat)           -- the member errors (never enabled for the healthy member)
-  | errorFrom (t : Nat)
+  | wantR (t : Nat)
+  | rlock (t : Nat)
+  | runlock (t : Nat)
+  | call (t : Nat) (m : Nat)      -- member `m` is entered
+  | ret (t : Nat) (o : Out)       -- the member call returned `o`
+  | wantW (t : Nat)
+  | lock (t : Nat)
+  | errFrom (t : Nat)             -- the comparison and, if equal, the advance
+  | unlock (t : Nat)
+  | giveUp (t : Nat)              -- the loop test fails: return the recorded error
   deriving Repr
 
 def setC (s : St) (t : Nat) (pc : PC) : St := { s with callers := s.callers.set t pc }
 
+/-- RLock succeeds: no writer holds the lock and (writer preference) none is waiting for it -/
+def rlockFree (s : St) : Bool := s.callers.all fun pc => !(pc.isWriter || (s.wp && pc.isPendingW))
+
+/-- Lock succeeds: nobody holds the lock -/
+def lockFree (s : St) : Bool := s.callers.all fun pc => !(pc.isReader || pc.isWriter)
+
 def step (s : St) : Ev → Option St
-  | .start t => match s.callers[t]? with
-    | some .idle => some (setC s t (.readCur 0))
+  | .wantR t => match s.callers[t]? with
+    | some (.next i) => if i < s.n then some (setC s t (.wantR i)) else none
     | _ => none
-  | .current t => match s.callers[t]? with
-    | some (.readCur i) => if i < s.n then some (setC s t (.calling i s.active)) else some (setC s t .failed)
+  | .giveUp t => match s.callers[t]? with
+    | some (.next i) => if i < s.n then none else some (setC s t .failed)
     | _ => none
-  | .answer t => match s.callers[t]? with
-    | some (.calling _ _) => some (setC s t .ok)
+  | .rlock t => match s.callers[t]? with
+    | some (.wantR i) => if rlockFree s then some (setC s t (.holdR i s.active)) else none
     | _ => none
-  | .error t => match s.callers[t]? with
-    | some (.calling i a) => if a = s.h then none else some (setC s t (.erred i a))
+  | .runlock t => match s.callers[t]? with
+    | some (.holdR i a) => some (setC s t (.toCall i a))
     | _ => none
-  | .errorFrom t => match s.callers[t]? with
-    | some (.erred i a) =>
+  | .call t m => match s.callers[t]? with
+    | some (.toCall i a) => if m = a then some (setC s t (.calling i a)) else none
+    | _ => none
+  | .ret t o => match s.callers[t]?, s.reqs[t]? with
+    | some (.calling i a), some (op, p) =>
+      -- the healthy member never errors and answers truthfully; replicas answer truthfully when they answer
+      if (a = s.h ∨ (s.truthful = true ∧ classify op o = some true)) ∧ o ≠ truth op p then none
+      else match classify op o with
+        | some true => some (setC s t (.ok o a))
+        | some false => some (setC s t (.erred i a))
+        | none => none
+    | _, _ => none
+  | .wantW t => match s.callers[t]? with
+    | some (.erred i a) => some (setC s t (.wantW i a))
+    | _ => none
+  | .lock t => match s.callers[t]? with
+    | some (.wantW i a) => if lockFree s then some (setC s t (.holdW i a)) else none
+    | _ => none
+  | .errFrom t => match s.callers[t]? with
+    | some (.holdW i a) =>
       let s' := if a = s.active then { s with active := (s.active + 1) % s.n } else s
-      some (setC s' t (.readCur (i + 1)))
+      some (setC s' t (.advd i))
+    | _ => none
+  | .unlock t => match s.callers[t]? with
+    | some (.advd i) => some (setC s t (.next (i + 1)))
     | _ => none
 
 inductive Reachable (s0 : St) : St → Prop
